@@ -43,7 +43,7 @@ Record req := mkQ { q_spec : rspec; q_cancelled : bool; q_replies : list reply; 
 Inductive pc :=
 | PSel | PLk (q : nat) | PNr (q r : nat) | PPing (q r : nat) | PUse (q r : nat) | PUseSend (q r : nat)
 | PFv (q : nat) | PFvR (q : nat) (rest : list nat) (first : nat) | PExp (q r : nat) | PExpSend (q r : nat)
-| PWait (q : nat) | PErr (q : nat) | PFlt (q : nat) | PUfs (q : nat) (ld : bool)
+| PWait (q r : nat) | PErr (q : nat) | PFlt (q : nat) | PUfs (q : nat) (ld : bool)
 | PUfsR (q : nat) (ld : bool) (rest : list nat)
 | PNs (q : nat) | PLd1 (q r : nat) | PLd2 (q r : nat)
 | CSel | CFLk (q : nat) | CFR (q r : nat) | CFSend (r : nat)
@@ -320,11 +320,11 @@ Definition run_pc (c : config) (s : state) (t : nat) (p : pc) (alt : Z) : option
       guard (is_none (r_mu x) && Z.eqb alt 0) (
       let x1 := r_set_dur (r_set_tm x TNone) 0%Z in
       if N.eqb (r_ref x) 0 then Some (goto (setr s r (r_set_mu x1 (Some t))) t (PExpSend q r), [])
-      else Some (goto (setr s r x1) t (PWait q), []))
+      else Some (goto (setr s r x1) t (PWait q r), []))
   | PExpSend q r =>
       x <- getr s r ;;
-      guard (Z.eqb alt 0) (Some (goto (setr (s_expq s (expq s ++ [r])) r (r_set_mu x None)) t (PWait q), []))
-  | PWait q =>
+      guard (Z.eqb alt 0) (Some (goto (setr (s_expq s (expq s ++ [r])) r (r_set_mu x None)) t (PWait q r), []))
+  | PWait q _ =>
       guard (Z.eqb alt 0) (match unlq s with O => None | S n => Some (goto (s_unlq s n) t (PLk q), []) end)
   | PErr q =>
       guard (Z.eqb alt 0) (s1 <- do_reply s q RErr ;; Some (goto s1 t PSel, [EReply q RErr]))
